@@ -44,6 +44,7 @@ every index of `m.indices` lies inside `prev`, `next`, `weights`, `vehicleRates`
 compute just before `Cost::enforce_strictly_positive`.
 -/
 import Compass.Gen.Decisions
+import Compass.Gen.Fns
 import Compass.Proofs.Num
 import Compass.Model.Cost
 import Compass.Proofs.Cost
@@ -1665,6 +1666,147 @@ theorem src_cost_non_negative {α : Type} [Field α] [LinearOrder α] [IsStrictO
     some (enforceNonNegative c) =
       (cost_non_negative.num c (zero : α)).map fun b => if b then (zero : α) else c := by
   simp [enforceNonNegative, cost_non_negative, Rel.num]
+
+
+/-! ### Generated function bodies
+
+`tools/gen_fns.py` re-translates the body of the Rust function on every run into `Compass/Gen/Fns.lean`
+(`Gen.<Type>_<fn>`; conventions in the header of the tool).  Each `gen_*_eq` theorem below says that the
+generated definition *is* the hand-written model function the property theorems are about.  A source
+change to the function changes the generated definition and the proof stops checking (a body the
+translator no longer recognises is not emitted: the theorem no longer elaborates). -/
+
+theorem gen_agg_fold1_eq {α : Type} [Field α] (cs : List (String × α)) (acc : α) :
+    Gen.CostAggregation_agg_fold1 cs acc = (cs.map (·.2)).foldl (· + ·) acc := by
+  induction cs generalizing acc with
+  | nil => simp [Gen.CostAggregation_agg_fold1]
+  | cons c cs ih => obtain ⟨s, c⟩ := c; simp [Gen.CostAggregation_agg_fold1, ih]
+
+theorem gen_agg_fold2_eq {α : Type} [Field α] (cs : List (String × α)) (acc : α) :
+    Gen.CostAggregation_agg_fold2 cs acc = (cs.map (·.2)).foldl (· * ·) acc := by
+  induction cs generalizing acc with
+  | nil => simp [Gen.CostAggregation_agg_fold2]
+  | cons c cs ih => obtain ⟨s, c⟩ := c; simp [Gen.CostAggregation_agg_fold2, ih]
+
+/-- `CostAggregation::agg` takes `(name, cost)` pairs; the model's `agg` the costs -/
+theorem gen_agg_eq {α : Type} [Field α] [LinearOrder α] [IsStrictOrderedRing α] [Lit α] [LawfulLit α] (a : CostAggregation) (cs : List (String × α)) :
+    Gen.CostAggregation_agg a cs = a.agg (cs.map (·.2)) := by
+  cases a with
+  | sum => simp [Gen.CostAggregation_agg, CostAggregation.agg, gen_agg_fold1_eq]
+  | mul => simp [Gen.CostAggregation_agg, CostAggregation.agg, gen_agg_fold2_eq]
+
+mutual
+theorem gen_map_value_eq {α : Type} [Field α] [LinearOrder α] [IsStrictOrderedRing α] [Lit α] [LawfulLit α] (r : VehicleCostRate α) (x : α) :
+    Gen.VehicleCostRate_map_value r x = r.mapValue x := by
+  cases r with
+  | zero => simp [Gen.VehicleCostRate_map_value, VehicleCostRate.mapValue]
+  | raw => simp [Gen.VehicleCostRate_map_value, VehicleCostRate.mapValue]
+  | factor f => simp [Gen.VehicleCostRate_map_value, VehicleCostRate.mapValue]
+  | offset o => simp [Gen.VehicleCostRate_map_value, VehicleCostRate.mapValue]
+  | combined rs =>
+    simp only [Gen.VehicleCostRate_map_value, VehicleCostRate.mapValue]
+    exact gen_map_value_fold_eq rs x
+theorem gen_map_value_fold_eq {α : Type} [Field α] [LinearOrder α] [IsStrictOrderedRing α] [Lit α] [LawfulLit α] (rs : List (VehicleCostRate α)) (x : α) :
+    Gen.VehicleCostRate_map_value_fold1 rs x = VehicleCostRate.mapValueList rs x := by
+  cases rs with
+  | nil => simp [Gen.VehicleCostRate_map_value_fold1, VehicleCostRate.mapValueList]
+  | cons r rs =>
+    simp only [Gen.VehicleCostRate_map_value_fold1, VehicleCostRate.mapValueList]
+    rw [gen_map_value_eq r x]
+    exact gen_map_value_fold_eq rs (r.mapValue x)
+end
+
+theorem gen_enforce_strictly_positive_eq {α : Type} [Field α] [LinearOrder α] [IsStrictOrderedRing α] [Lit α] [LawfulLit α] (c : α) :
+    Gen.Cost_enforce_strictly_positive c = enforceStrictlyPositive c := rfl
+
+theorem gen_enforce_non_negative_eq {α : Type} [Field α] [LinearOrder α] [IsStrictOrderedRing α] [Lit α] [LawfulLit α] (c : α) :
+    Gen.Cost_enforce_non_negative c = enforceNonNegative c := rfl
+
+
+theorem gen_network_traversal_fold_eq {α : Type} [Field α] (xs : List α) (a : α) :
+    Gen.NetworkCostRate_traversal_cost_fold2 xs a = xs.foldl (· + ·) a := by
+  induction xs generalizing a with
+  | nil => simp [Gen.NetworkCostRate_traversal_cost_fold2]
+  | cons x xs ih => simp [Gen.NetworkCostRate_traversal_cost_fold2, ih]
+
+theorem gen_network_access_fold_eq {α : Type} [Field α] (xs : List α) (a : α) :
+    Gen.NetworkCostRate_access_cost_fold2 xs a = xs.foldl (· + ·) a := by
+  induction xs generalizing a with
+  | nil => simp [Gen.NetworkCostRate_access_cost_fold2]
+  | cons x xs ih => simp [Gen.NetworkCostRate_access_cost_fold2, ih]
+
+theorem gen_traversalCostList_foldl {α : Type} [Field α] [LinearOrder α] [IsStrictOrderedRing α] [Lit α] [LawfulLit α]
+    (rs : List (NetworkCostRate α)) (e : Nat) (acc : α) :
+    NetworkCostRate.traversalCostList rs e acc = (rs.map (·.traversalCost e)).foldl (· + ·) acc := by
+  induction rs generalizing acc with
+  | nil => simp [NetworkCostRate.traversalCostList]
+  | cons r rs ih => simp [NetworkCostRate.traversalCostList, ih]
+
+theorem gen_accessCostList_foldl {α : Type} [Field α] [LinearOrder α] [IsStrictOrderedRing α] [Lit α] [LawfulLit α]
+    (rs : List (NetworkCostRate α)) (p n : Nat) (acc : α) :
+    NetworkCostRate.accessCostList rs p n acc = (rs.map (·.accessCost p n)).foldl (· + ·) acc := by
+  induction rs generalizing acc with
+  | nil => simp [NetworkCostRate.accessCostList]
+  | cons r rs ih => simp [NetworkCostRate.accessCostList, ih]
+
+mutual
+/-- `NetworkCostRate::traversal_cost` never returns `Err`; the edge is its `edge_id`, the `HashMap` an
+association list with unique keys -/
+theorem gen_traversal_cost_eq {α : Type} [Field α] [LinearOrder α] [IsStrictOrderedRing α] [Lit α] [LawfulLit α]
+    (r : NetworkCostRate α) (e : Nat) :
+    Gen.NetworkCostRate_traversal_cost r e = some (r.traversalCost e) := by
+  cases r with
+  | zero => simp [Gen.NetworkCostRate_traversal_cost, NetworkCostRate.traversalCost]
+  | edgeLookup tbl =>
+    simp only [Gen.NetworkCostRate_traversal_cost, NetworkCostRate.traversalCost, lookup1]
+    cases List.find? (fun p : Nat × α => p.1 == e) tbl <;> rfl
+  | edgeEdgeLookup tbl => simp [Gen.NetworkCostRate_traversal_cost, NetworkCostRate.traversalCost]
+  | combined rs =>
+    simp only [Gen.NetworkCostRate_traversal_cost, NetworkCostRate.traversalCost]
+    rw [gen_traversal_cost_collect_eq rs e]
+    simp [gen_network_traversal_fold_eq, gen_traversalCostList_foldl]
+theorem gen_traversal_cost_collect_eq {α : Type} [Field α] [LinearOrder α] [IsStrictOrderedRing α] [Lit α] [LawfulLit α]
+    (rs : List (NetworkCostRate α)) (e : Nat) :
+    Gen.NetworkCostRate_traversal_cost_collect1 e rs = some (rs.map (·.traversalCost e)) := by
+  cases rs with
+  | nil => simp [Gen.NetworkCostRate_traversal_cost_collect1]
+  | cons r rs =>
+    simp only [Gen.NetworkCostRate_traversal_cost_collect1]
+    rw [gen_traversal_cost_eq r e, gen_traversal_cost_collect_eq rs e]
+    simp
+end
+
+theorem gen_lookup2_pred (a b : Nat) {α : Type} :
+    (fun p : (Nat × Nat) × α => p.1 == (a, b)) = (fun p => p.1.1 == a && p.1.2 == b) := by
+  funext p
+  rcases p with ⟨⟨x, y⟩, c⟩
+  rw [Bool.eq_iff_iff]
+  simp
+
+mutual
+theorem gen_access_cost_eq {α : Type} [Field α] [LinearOrder α] [IsStrictOrderedRing α] [Lit α] [LawfulLit α]
+    (r : NetworkCostRate α) (p n : Nat) :
+    Gen.NetworkCostRate_access_cost r p n = some (r.accessCost p n) := by
+  cases r with
+  | zero => simp [Gen.NetworkCostRate_access_cost, NetworkCostRate.accessCost]
+  | edgeLookup tbl => simp [Gen.NetworkCostRate_access_cost, NetworkCostRate.accessCost]
+  | edgeEdgeLookup tbl =>
+    simp only [Gen.NetworkCostRate_access_cost, NetworkCostRate.accessCost, lookup2, gen_lookup2_pred]
+    cases List.find? (fun q : (Nat × Nat) × α => q.1.1 == p && q.1.2 == n) tbl <;> rfl
+  | combined rs =>
+    simp only [Gen.NetworkCostRate_access_cost, NetworkCostRate.accessCost]
+    rw [gen_access_cost_collect_eq rs p n]
+    simp [gen_network_access_fold_eq, gen_accessCostList_foldl]
+theorem gen_access_cost_collect_eq {α : Type} [Field α] [LinearOrder α] [IsStrictOrderedRing α] [Lit α] [LawfulLit α]
+    (rs : List (NetworkCostRate α)) (p n : Nat) :
+    Gen.NetworkCostRate_access_cost_collect1 p n rs = some (rs.map (·.accessCost p n)) := by
+  cases rs with
+  | nil => simp [Gen.NetworkCostRate_access_cost_collect1]
+  | cons r rs =>
+    simp only [Gen.NetworkCostRate_access_cost_collect1]
+    rw [gen_access_cost_eq r p n, gen_access_cost_collect_eq rs p n]
+    simp
+end
 
 end C07
 end Compass
